@@ -358,8 +358,8 @@ def _extract_program(gen):
             "pieces": merged, "assumptions": assumptions}
 
 
-def _genexpr_test(code, what):
-    """`(h.lower() == 'lit' for h in <iter>)` -> 'lit'"""
+def _genexpr_yield(code, what):
+    """what `(<expr> for h in <iter>)` yields: ('eq-lower', 'lit') for h.lower() == 'lit', ('lower',) for h.lower()"""
     ins = [i for i in dis.get_instructions(code) if i.opname not in ("RESUME", "CACHE")]
     names = [i.opname for i in ins]
     try:
@@ -376,21 +376,33 @@ def _genexpr_test(code, what):
             st.append(("var", i.argval))
         elif i.opname == "LOAD_CONST":
             st.append(("const", i.argval))
-        elif i.opname == "LOAD_ATTR" and i.arg & 1:
+        elif i.opname == "LOAD_ATTR" and i.arg & 1 and st:
             st.append(("meth", st.pop(), i.argval))
         elif i.opname == "CALL" and i.arg == 0 and st and st[-1][0] == "meth":
             st.append(("call",) + st.pop()[1:])
-        elif i.opname == "COMPARE_OP" and i.argrepr == "==":
+        elif i.opname == "COMPARE_OP" and i.argrepr == "==" and len(st) >= 2:
             b, a = st.pop(), st.pop()
             st.append(("eq", a, b))
         else:
-            raise Refuse("%s: generator expression does something else than comparing a lowered name (%s)" % (what, i.opname))
-    if len(st) != 1 or st[0][0] != "eq":
-        raise Refuse("%s: generator expression does not yield a comparison" % what)
-    for a, b in ((st[0][1], st[0][2]), (st[0][2], st[0][1])):
-        if a == ("call", ("var", var), "lower") and b[0] == "const" and isinstance(b[1], str):
-            return b[1]
-    raise Refuse("%s: the yielded comparison is not '<name>.lower() == <literal>'" % what)
+            raise Refuse("%s: generator expression does something else than lowering / comparing a name (%s)" % (what, i.opname))
+    if len(st) != 1:
+        raise Refuse("%s: generator expression does not yield one value" % what)
+    lowered = ("call", ("var", var), "lower")
+    if st[0] == lowered:
+        return ("lower",)
+    if st[0][0] == "eq":
+        for a, b in ((st[0][1], st[0][2]), (st[0][2], st[0][1])):
+            if a == lowered and b[0] == "const" and isinstance(b[1], str):
+                return ("eq-lower", b[1])
+    raise Refuse("%s: the generator expression yields neither '<name>.lower()' nor '<name>.lower() == <literal>'" % what)
+
+
+def _is_genexpr_over(v, cont):
+    """v = (<genexpr>)(iter(cont)) -> its code object"""
+    if v[0] == "call" and v[1][0] == "func" and v[1][1][0] == "const" and hasattr(v[1][1][1], "co_code") \
+            and v[2] == (("iter", cont),):
+        return v[1][1][1]
+    return None
 
 
 def _extract_branch(req, counter):
@@ -529,14 +541,18 @@ def _extract_branch(req, counter):
         raise Refuse("do_request: %d tests for a caller-supplied id (one expected)" % len(others))
     kind, v = others[0]
     test = None
+    absent = (kind == "true" and v[0] == "notin") or (kind == "false" and v[0] == "in")
     if kind == "false" and v[0] == "call" and v[1] == ("global", "any") and len(v[2]) == 1:
-        a = v[2][0]
-        if a[0] == "call" and a[1][0] == "func" and a[1][1][0] == "const" and hasattr(a[1][1][1], "co_code") \
-                and a[2] == (("iter", cont),):
-            test = ("lowerEq", _genexpr_test(a[1][1][1], what))
-    elif (kind == "true" and v[0] == "notin" or kind == "false" and v[0] == "in") \
-            and v[1][0] == "const" and isinstance(v[1][1], str) and v[2] == cont:
+        code = _is_genexpr_over(v[2][0], cont)
+        if code is not None:
+            y = _genexpr_yield(code, what)
+            if y[0] == "eq-lower":
+                test = ("lowerEq", y[1])
+    elif absent and v[1][0] == "const" and isinstance(v[1][1], str) and v[2] == cont:
         test = ("exact", v[1][1])
+    elif absent and v[1][0] == "const" and isinstance(v[1][1], str) and _is_genexpr_over(v[2], cont) is not None:
+        if _genexpr_yield(_is_genexpr_over(v[2], cont), what) == ("lower",):
+            test = ("lowerEq", v[1][1])
     if test is None:
         raise Refuse("do_request: the test for a caller-supplied id is not understood (%r)" % (v,))
     for s in (test[1], key[1]):
@@ -834,7 +850,9 @@ class Forced:
 # ====================================================================== the real code behind the protocol
 THEOREMS = [
     "C16.program_ok", "C16.locked_unique", "C16.locked_gap_free", "C16.locked_in_order", "C16.par_ids",
-    "C16.format_ok", "C16.format_injective", "C16.header_test_ok", "C16.caller_id", "C16.derived_shares",
+    "C16.par_total", "C16.genSeq_ok", "C16.format_ok", "C16.format_injective", "C16.header_test_ok",
+    "C16.caller_id", "C16.derived_shares", "C16.program_fuel", "C16.request_auto", "C16.test_covers",
+    "C16.par_world",
 ]
 
 
@@ -1315,7 +1333,7 @@ def gen_cases(rng, tier):
     L, A, R = _prog_info()
     quick = tier == "quick"
     # sequential scenarios
-    for _ in range(1200 if quick else 30000):
+    for _ in range(1200 if quick else 20000):
         lines = []
         fams = _prelude(rng, lines)
         allc = [c for _, (ids, cs) in fams.items() for c in cs]
@@ -1325,7 +1343,7 @@ def gen_cases(rng, tier):
                 lines.append("burst %d %d" % (rng.choice(allc), rng.randrange(1, 40)))
         yield {"lines": lines, "meta": {"kind": "sequential"}}
     # forced interleavings
-    for n in range(700 if quick else 40000):
+    for n in range(700 if quick else 15000):
         lines = []
         fams = _prelude(rng, lines)
         f = rng.choice(list(fams))
